@@ -192,8 +192,61 @@ mod rnd { pub fn run(_a: &[&str]) -> String { "UNSUPPORTED".into() } }
 #[cfg(feature = "withserde")]
 mod srd {
     use super::*;
+    // a serializer that records the calls it receives (the announced sequence length is invisible in JSON)
+    use serde::ser::{Impossible, Serialize, SerializeSeq, SerializeTuple, Serializer};
+    type E = serde::de::value::Error;
+    pub struct Rec { pub out: String }
+    fn no<T>(what: &str) -> Result<T, E> { Err(serde::ser::Error::custom(format!("unexpected {}", what))) }
+    impl<'a> Serializer for &'a mut Rec {
+        type Ok = (); type Error = E;
+        type SerializeSeq = Self; type SerializeTuple = Self;
+        type SerializeTupleStruct = Impossible<(), E>; type SerializeTupleVariant = Impossible<(), E>; type SerializeMap = Impossible<(), E>;
+        type SerializeStruct = Impossible<(), E>; type SerializeStructVariant = Impossible<(), E>;
+        fn serialize_seq(self, len: Option<usize>) -> Result<Self, E> { self.out.push_str(&match len { Some(n) => format!("S{} ", n), None => "S? ".into() }); Ok(self) }
+        fn serialize_tuple(self, len: usize) -> Result<Self, E> { self.out.push_str(&format!("T{} ", len)); Ok(self) }
+        fn serialize_u32(self, v: u32) -> Result<(), E> { self.out.push_str(&format!("u:{} ", v)); Ok(()) }
+        fn serialize_i8(self, v: i8) -> Result<(), E> { self.out.push_str(&format!("I:{} ", v)); Ok(()) }
+        fn serialize_bool(self, _: bool) -> Result<(), E> { no("bool") }
+        fn serialize_i16(self, _: i16) -> Result<(), E> { no("i16") }
+        fn serialize_i32(self, _: i32) -> Result<(), E> { no("i32") }
+        fn serialize_i64(self, _: i64) -> Result<(), E> { no("i64") }
+        fn serialize_u8(self, _: u8) -> Result<(), E> { no("u8") }
+        fn serialize_u16(self, _: u16) -> Result<(), E> { no("u16") }
+        fn serialize_u64(self, _: u64) -> Result<(), E> { no("u64") }
+        fn serialize_f32(self, _: f32) -> Result<(), E> { no("f32") }
+        fn serialize_f64(self, _: f64) -> Result<(), E> { no("f64") }
+        fn serialize_char(self, _: char) -> Result<(), E> { no("char") }
+        fn serialize_str(self, _: &str) -> Result<(), E> { no("str") }
+        fn serialize_bytes(self, _: &[u8]) -> Result<(), E> { no("bytes") }
+        fn serialize_none(self) -> Result<(), E> { no("none") }
+        fn serialize_some<T: ?Sized + Serialize>(self, _: &T) -> Result<(), E> { no("some") }
+        fn serialize_unit(self) -> Result<(), E> { no("unit") }
+        fn serialize_unit_struct(self, _: &'static str) -> Result<(), E> { no("unit_struct") }
+        fn serialize_unit_variant(self, _: &'static str, _: u32, _: &'static str) -> Result<(), E> { no("unit_variant") }
+        fn serialize_newtype_struct<T: ?Sized + Serialize>(self, _: &'static str, _: &T) -> Result<(), E> { no("newtype_struct") }
+        fn serialize_newtype_variant<T: ?Sized + Serialize>(self, _: &'static str, _: u32, _: &'static str, _: &T) -> Result<(), E> { no("newtype_variant") }
+        fn serialize_tuple_struct(self, _: &'static str, _: usize) -> Result<Self::SerializeTupleStruct, E> { no("tuple_struct") }
+        fn serialize_tuple_variant(self, _: &'static str, _: u32, _: &'static str, _: usize) -> Result<Self::SerializeTupleVariant, E> { no("tuple_variant") }
+        fn serialize_map(self, _: Option<usize>) -> Result<Self::SerializeMap, E> { no("map") }
+        fn serialize_struct(self, _: &'static str, _: usize) -> Result<Self::SerializeStruct, E> { no("struct") }
+        fn serialize_struct_variant(self, _: &'static str, _: u32, _: &'static str, _: usize) -> Result<Self::SerializeStructVariant, E> { no("struct_variant") }
+        fn collect_str<T: ?Sized + core::fmt::Display>(self, _: &T) -> Result<(), E> { no("collect_str") }
+    }
+    impl<'a> SerializeSeq for &'a mut Rec {
+        type Ok = (); type Error = E;
+        fn serialize_element<T: ?Sized + Serialize>(&mut self, value: &T) -> Result<(), E> { value.serialize(&mut **self) }
+        fn end(self) -> Result<(), E> { self.out.push_str("E "); Ok(()) }
+    }
+    impl<'a> SerializeTuple for &'a mut Rec {
+        type Ok = (); type Error = E;
+        fn serialize_element<T: ?Sized + Serialize>(&mut self, value: &T) -> Result<(), E> { value.serialize(&mut **self) }
+        fn end(self) -> Result<(), E> { Ok(()) }
+    }
+    fn rec<T: Serialize>(x: &T) -> String { let mut r = Rec { out: String::new() }; match x.serialize(&mut r) { Ok(()) => r.out.trim_end().to_string(), Err(e) => format!("ERR {}", e) } }
     pub fn run(a: &[&str]) -> String {
         match a[0] {
+            "srec_u" => rec(&pu(a[1])),
+            "srec_i" => rec(&pi(a[1])),
             "sser_u" => serde_json::to_string(&pu(a[1])).unwrap_or_else(|e| format!("ERR {}", e)),
             "sser_i" => serde_json::to_string(&pi(a[1])).unwrap_or_else(|e| format!("ERR {}", e)),
             "sde_u" => match serde_json::from_str::<BigUint>(a[1]) { Ok(v) => format!("Ok({})", fu(&v)), Err(_) => "Err".into() },
@@ -215,7 +268,7 @@ fn run(a: &[&str]) -> String {
     if op == "sc" { return sc(a); }
     if op == "cv" { return cv(a); }
     if op == "fr" { return fr(a); }
-    if op.starts_with("sser_") || op.starts_with("sde_") || op.starts_with("sround_") { return srd::run(a); }
+    if op.starts_with("sser_") || op.starts_with("sde_") || op.starts_with("sround_") || op.starts_with("srec_") { return srd::run(a); }
     if op.starts_with('r') && (op.starts_with("rgen_") || op.starts_with("rbits_") || op.starts_with("runiform_") || op.starts_with("rsingle_")) { return rnd::run(a); }
     match op {
         // ---- BigUint arithmetic
